@@ -138,7 +138,7 @@ def runQ (keys queries : List Key) : String :=
 /-! ### R cases -/
 
 def typedKeys : List Nat :=
-  [30, 48, 46, 32, 18, 33, 34, 35, 23, 36, 45, 21, 44, 57, 42, 54, 29, 97, 56, 100, 125, 126]
+  [30, 48, 46, 32, 18, 33, 34, 35, 23, 36, 45, 21, 44, 57, 42, 54, 29, 97, 56, 100, 125, 126, 676]
 
 def K_LEADER : Nat := 59
 def K_LEADER2 : Nat := 60
